@@ -17,6 +17,7 @@ RULE = (
     "cells with polygons, in linear order, identical coordinate sequences; GeoJSON/Shapefile records "
     "carry the linear index and a native index that converts back to the same cell.  Non-trivial: "
     "datasets with holes or with native indexes that carry a grid kind."
+    ' Also: one CF grid above 10^4 (thorough 10^5) cells, SHOC grids whose native index text exceeds 16 characters, datasets across the antimeridian.'
 )
 LEVEL_TEXT = ("every dataset of the family list (holes, multi-kind native indexes, >10 cells) x 4 formats, read back "
               "with independent readers and compared cell by cell with the reference polygons and indexes")
